@@ -20,12 +20,16 @@
 
    DURING-TRIM case (testing only, no theorem): a deterministic interleaving
      2 NP low high grace res ND ND x (interval k min max)  NPRE  NPRE x (op obs)
-       NS  NS x op   obs   then (op obs) repeated
+       HP  NS  NS x op   NPR  NPR x p   obs   then (op obs) repeated
    after the NPRE sequential steps TrimOpenConns is called and, from inside
    it (between its candidate snapshot and its selection loop: the fake
    connections' Stat() is called by the sort), the NS script ops (ops 1..7,
    9, 10) are executed synchronously; obs is taken when the trim has returned;
-   the case then continues sequentially.
+   the case then continues sequentially.  HP is the hook point: 1 = inside the
+   sort (after the snapshot, before the selection loop), 2 = at the first
+   CloseWithError (after the selection loop); for HP = 2 the NPR peers are
+   those GetTagInfo reported absent when the hook fired although present
+   before the trim (temporary entries pruned by the selection loop).
 
    CONCURRENT case (testing only, no theorem):
      1 NP low high grace  NPRE op..  NW  (LEN op..) x NW   obs
@@ -449,16 +453,31 @@ Definition prune_observed (np : nat) (s : state) (x : obs) : state :=
                then set_peer s' p nopeer else s')
             (seq 0 np) s.
 
-Definition conform_during (cfg : config) (np : nat) (pre : list (op * obs)) (script : list op)
+Definition prune_listed (s : state) (l : list nat) : option state :=
+  fold_left (fun os p => match os with
+                         | Some s' => let pi := peer_at s' p in
+                                      if p_tracked pi && p_temp pi && is_nil (p_conns pi)
+                                      then Some (set_peer s' p nopeer) else None
+                         | None => None
+                         end) l (Some s).
+
+Definition conform_during (cfg : config) (np : nat) (pre : list (op * obs)) (ev : Z * list op * list nat)
            (x : obs) (post : list (op * obs)) : list Z :=
+  let '(hp, script, pruned) := ev in
   match conf_prefix cfg np (init cfg) 0 pre with
   | inr d => d
   | inl (s0, i) =>
-      let s1 := run isort cfg s0 script in
-      if negb (during_closed_ok cfg (abs s0) (abs s1) (o_closed x)) then [ERR_MISMATCH; i; 1; zlen (o_closed x); 0] else
-      let s2 := prune_observed np s1 x in
-      if negb (obs_state_eqb (mobs np s2 []) x) then [ERR_MISMATCH; i; 2; count s2; o_count x]
-      else conform_run cfg np s2 (i + 1) post
+      (* hook point 2: the selection loop (and its pruning) ran before the script *)
+      match (if hp =? 2 then prune_listed s0 pruned else Some s0) with
+      | None => [ERR_MISMATCH; i; 3; 0; 0]
+      | Some s0' =>
+          let s1 := run isort cfg s0' script in
+          if negb (during_closed_ok cfg (abs s0) (abs s1) (o_closed x)) then [ERR_MISMATCH; i; 1; zlen (o_closed x); 0] else
+          if (hp =? 2) && negb (trim_ok cfg (abs s0) (o_closed x)) then [ERR_MISMATCH; i; 1; zlen (o_closed x); 2] else
+          let s2 := if hp =? 2 then s1 else prune_observed np s1 x in
+          if negb (obs_state_eqb (mobs np s2 []) x) then [ERR_MISMATCH; i; 2; count s2; o_count x]
+          else conform_run cfg np s2 (i + 1) post
+      end
   end.
 
 (* ---- wire decoding ------------------------------------------------------------------- *)
@@ -664,8 +683,17 @@ Fixpoint decode_trace_n (n : nat) (np : nat) (l : list Z) : option (list (op * o
       end
   end.
 
+Fixpoint decode_nats (n : nat) (l : list Z) : option (list nat * list Z) :=
+  match n with
+  | O => Some ([], l)
+  | S k => match l with
+           | p :: r => match decode_nats k r with Some (ps, r') => Some (znat p :: ps, r') | None => None end
+           | [] => None
+           end
+  end.
+
 Definition decode_during (l : list Z)
-  : option (config * nat * list (op * obs) * list op * obs * list (op * obs)) :=
+  : option (config * nat * list (op * obs) * (Z * list op * list nat) * obs * list (op * obs)) :=
   match l with
   | 2 :: np :: low :: high :: grace :: res :: nd :: r =>
       if (np <? 0) || (64 <? np) || (nd <? 0) || (16 <? nd) || (res <=? 0) then None else
@@ -673,21 +701,27 @@ Definition decode_during (l : list Z)
       | Some (ds, npre :: r1) =>
           if (npre <? 0) || (100000 <? npre) then None else
           match decode_trace_n (znat npre) (znat np) r1 with
-          | Some (pre, ns :: r2) =>
-              if (ns <? 0) || (1000 <? ns) then None else
+          | Some (pre, hp :: ns :: r2) =>
+              if (ns <? 0) || (1000 <? ns) || negb ((hp =? 1) || (hp =? 2)) then None else
               match decode_ops (znat ns) r2 with
-              | Some (script, r3) =>
-                  match decode_obs (znat np) r3 with
-                  | Some (x, r4) =>
-                      match decode_trace (S (length r4)) (znat np) r4 with
-                      | Some post =>
-                          if forallb script_op_ok script
-                          then Some (mkCfg low high grace res ds, znat np, pre, script, x, post) else None
+              | Some (script, npr :: r3) =>
+                  if (npr <? 0) || (64 <? npr) then None else
+                  match decode_nats (znat npr) r3 with
+                  | Some (pruned, r3') =>
+                      match decode_obs (znat np) r3' with
+                      | Some (x, r4) =>
+                          match decode_trace (S (length r4)) (znat np) r4 with
+                          | Some post =>
+                              if forallb script_op_ok script
+                              then Some (mkCfg low high grace res ds, znat np, pre, (hp, script, pruned), x, post)
+                              else None
+                          | None => None
+                          end
                       | None => None
                       end
                   | None => None
                   end
-              | None => None
+              | _ => None
               end
           | _ => None
           end
@@ -696,7 +730,7 @@ Definition decode_during (l : list Z)
   | _ => None
   end.
 
-Definition conform_case (l : list Z) : list Z :=
+Definition conform_case_seq (l : list Z) : list Z :=
   match l with
   | 1 :: _ =>
       match decode_conc l with
@@ -705,7 +739,7 @@ Definition conform_case (l : list Z) : list Z :=
       end
   | 2 :: _ =>
       match decode_during l with
-      | Some (cfg, np, pre, script, x, post) => conform_during cfg np pre script x post
+      | Some (cfg, np, pre, ev, x, post) => conform_during cfg np pre ev x post
       | None => [ERR_MALFORMED; 2]
       end
   | _ =>
@@ -715,7 +749,7 @@ Definition conform_case (l : list Z) : list Z :=
       end
   end.
 
-Definition monitor_case (l : list Z) : list Z :=
+Definition monitor_case_seq (l : list Z) : list Z :=
   match l with
   | 1 :: _ =>
       match decode_conc l with
@@ -724,7 +758,7 @@ Definition monitor_case (l : list Z) : list Z :=
       end
   | 2 :: _ =>
       match decode_during l with
-      | Some (cfg, np, pre, script, x, post) => monitor_during cfg np pre script x post
+      | Some (cfg, np, pre, (_, script, _), x, post) => monitor_during cfg np pre script x post
       | None => [ERR_MALFORMED; 2]
       end
   | _ =>
